@@ -115,7 +115,7 @@ func nontrivialStep(ref *refRun, k int) bool {
 // injectSteps is the number of injection points of a program.
 func injectSteps(p *prog, ref *refRun) int {
 	if ref.cut {
-		return ref.cap - 60 + 1
+		return ref.cap - ntTail + 1
 	}
 	return ref.n
 }
